@@ -583,3 +583,93 @@ func RunBigClear(s *Store, col *ev.Collector, label string) (ops int) {
 	}
 	return ops
 }
+
+// ---- whole-table delete ----------------------------------------------------------------
+
+// table names that extend each other or differ in the byte next to the separator, and keys at the edges of a table's range
+var isoTables = []string{"t", "ta", "t;", "t\x00", "t9", "t_", "t\xff", "s", "order", "orders", "order_items", "orde"}
+var isoTableKeys = []string{"k", ";", "\x00", "\xff"}
+
+// RunTableDelete: every table of the pool holds one entity per type and key; dropping one table
+// (RockDB.DeleteTableRange with an unbounded range, what the delete-range API of a namespace applies on
+// every replica) must leave nothing of that table readable or stored and must not change anything,
+// logically or physically, of any other table.
+func RunTableDelete(s *Store, col *ev.Collector, label string) (ops int) {
+	ts := int64(1600000000) * 1e9
+	type ent struct{ typ, table, key string }
+	full := func(e ent) string { return e.table + ":" + e.key }
+	s.Load(Dump{})
+	var ents []ent
+	absent := map[ent]string{}
+	created := map[ent][]string{}
+	for _, typ := range isoTypes {
+		for _, tb := range isoTables {
+			for _, k := range isoTableKeys {
+				e := ent{typ, tb, k}
+				absent[e] = isoRead(s, typ, full(e))
+			}
+		}
+	}
+	for _, typ := range isoTypes {
+		for _, tb := range isoTables {
+			for _, k := range isoTableKeys {
+				e := ent{typ, tb, k}
+				before := s.Dump()
+				if r := isoCreate(s, ts, typ, full(e)); r.IsErr() {
+					col.Outcome("table-delete:name-rejected:" + typ)
+					continue
+				}
+				ents = append(ents, e)
+				for pk := range s.Dump() {
+					if _, had := before[pk]; !had && !skipMetaKey(pk) {
+						created[e] = append(created[e], pk)
+					}
+				}
+			}
+		}
+	}
+	base := s.Dump()
+	baseRead := map[ent]string{}
+	for _, e := range ents {
+		baseRead[e] = isoRead(s, e.typ, full(e))
+	}
+	for _, tb := range isoTables {
+		s.Load(base)
+		if err := s.DB.DeleteTableRange(false, tb, nil, nil); err != nil {
+			col.Outcome("table-delete:refused")
+			continue
+		}
+		ops++
+		after := s.Dump()
+		for _, e := range ents {
+			got := isoRead(s, e.typ, full(e))
+			if e.table == tb {
+				if got != absent[e] {
+					col.Add(ev.Violation{Property: "C12", Signature: "C12|store|table-delete|leaves-" + e.typ, What: fmt.Sprintf("%s: after dropping table %q its %s %q still reads %s", label, tb, e.typ, full(e), got),
+						Replay: map[string]interface{}{"label": label, "table": tb, "entity": e}})
+				}
+				for _, pk := range created[e] {
+					if _, still := after[pk]; still {
+						col.Add(ev.Violation{Property: "C12", Signature: "C12|store|table-delete|leaves-stored-key|" + e.typ, What: fmt.Sprintf("%s: dropping table %q leaves stored key %q of its %s %q behind", label, tb, pk, e.typ, full(e)),
+							Replay: map[string]interface{}{"label": label, "table": tb, "entity": e}})
+						break
+					}
+				}
+				continue
+			}
+			if got != baseRead[e] {
+				col.Add(ev.Violation{Property: "C12", Signature: "C12|store|table-delete|changes-other-table|" + e.typ, What: fmt.Sprintf("%s: dropping table %q changed %s %q of table %q: %s -> %s", label, tb, e.typ, full(e), e.table, baseRead[e], got),
+					Replay: map[string]interface{}{"label": label, "table": tb, "entity": e}})
+				continue
+			}
+			for _, pk := range created[e] {
+				if nv, ok := after[pk]; !ok || nv != base[pk] {
+					col.Add(ev.Violation{Property: "C12", Signature: "C12|store|table-delete|physical|touches-other-table|" + e.typ, What: fmt.Sprintf("%s: dropping table %q changed stored key %q of %s %q", label, tb, pk, e.typ, full(e)),
+						Replay: map[string]interface{}{"label": label, "table": tb, "entity": e}})
+					break
+				}
+			}
+		}
+	}
+	return ops
+}
